@@ -4,7 +4,7 @@
    rule asks for, using the UAPI numbers by name — never the model. *)
 From Coq Require Import List Ascii String Arith NArith ZArith Bool Lia.
 Import ListNotations.
-Require Import Bytes Mach RuleTables RuleDecode Mask RuleEncode Uapi UapiRule.
+Require Import Bytes Mach RuleTables RuleDecode Mask RuleEncode RuleText RuleValue Uapi UapiRule.
 Local Open Scope string_scope.
 Local Open Scope list_scope.
 Open Scope N_scope.
@@ -105,7 +105,21 @@ Definition watch_shaped_dir (s : rspec) : bool :=
 
 Inductive bcase :=
 | BRule (s : rspec) (built : option str) (r : rt)
-| BWatch (path : str) (is_dir : bool) (perms : str) (keys : list str) (built : option str) (r : rt).
+| BWatch (path : str) (is_dir : bool) (perms : str) (keys : list str) (built : option str) (r : rt)
+| BVal (field : string) (text : str) (obs : option N).     (* one "-F field=text" filter: the value word Build wrote, None = rejected *)
+
+Definition judge_value (f : string) (text : str) (obs : option N) : N :=
+  match lookupS (s2l f) fields_table with
+  | None => match obs with None => 0 | Some _ => 1 end
+  | Some fc =>
+      if is_string_field fc then 0
+      else match parse_value fc text, obs with
+           | VLookup, _ => 0
+           | VOk n, Some m => if n =? m then 0 else 1
+           | VErr, None => 0
+           | _, _ => 1
+           end
+  end.
 
 Definition judge_c06 (c : bcase) : N :=
   match c with
@@ -119,13 +133,23 @@ Definition judge_c06 (c : bcase) : N :=
       | Some b => if negb (chk_C06_watch path is_dir perms keys b) then 2 else if optb_eqb (build_watch path is_dir perms keys) built then 0 else 1
       | None => if optb_eqb (build_watch path is_dir perms keys) None then 0 else 1
       end
+  | BVal f text obs => judge_value f text obs
+  end.
+(* the model side of the tie: decode -> re-encode gives the bytes back, and the model of ToCommandLine prints the text the implementation printed *)
+Definition text_agrees (b : str) (r : rt) : bool :=
+  match r with RT t1 _ _ => optb_eqb (text_of_wire b) t1 | RTNone => true end.
+(* known-finding class 103: an explicit syscall set that fills the first 63 mask words, last word not the all pattern's *)
+Definition covers_all_but_last (b : str) : bool :=
+  match uapi_rule_decode b with
+  | Some u => forallb (N.eqb 4294967295) (firstn 63 (ur_mask u)) && negb (nth 63 (ur_mask u) 0 =? 65535)
+  | None => false
   end.
 Definition judge_c07 (c : bcase) : N :=
   match c with
   | BRule s (Some b) r =>
-      if watch_shaped_dir s then 0
-      else if negb (chk_C07 r) then 2 else if optb_eqb (reencode b) (Some b) then 0 else 1
-  | BWatch _ _ _ _ (Some b) r => if negb (chk_C07 r) then 2 else if optb_eqb (reencode b) (Some b) then 0 else 1
+      if watch_shaped_dir s then (if text_agrees b r then 0 else 1)
+      else if negb (chk_C07 r) then (if covers_all_but_last b then 103 else 2) else if optb_eqb (reencode b) (Some b) && text_agrees b r then 0 else 1
+  | BWatch _ _ _ _ (Some b) r => if negb (chk_C07 r) then 2 else if optb_eqb (reencode b) (Some b) && text_agrees b r then 0 else 1
   | _ => 0
   end.
 
